@@ -102,9 +102,29 @@ def read_display_arms(dump_text: str, error_type: str):
             continue
         fmt = args[k]
         rest = args[k + 1:]
-        arms[variant] = {'fmt': fmt[1:-1], 'name_arg': rest[0] if rest else '',
-                         'bound_arg': re.sub(r'\s+', ' ', rest[1]) if len(rest) > 1 else ''}
+        bound_arg = re.sub(r'\s+', ' ', rest[1]) if len(rest) > 1 else ''
+        bound_type = None
+        if re.fullmatch(r'[A-Za-z_][A-Za-z0-9_]*', bound_arg):
+            # `let bound: T = <expr>;` earlier in the arm: the printed value is <expr> evaluated as a T
+            lm = re.search(r'\blet\s+' + re.escape(bound_arg) + r'\s*:\s*([A-Za-z0-9_:]+)\s*=\s*', s[a0:q])
+            if lm:
+                e0 = a0 + lm.end()
+                e1 = next((j for j in range(e0, q) if s[j] == ';' and sc.mask[j] and not any(o < j < c for o, c in sc.parens.items() if o >= e0)), None)
+                if e1 is not None:
+                    bound_type = lm.group(1)
+                    bound_arg = re.sub(r'\s+', ' ', s[e0:e1].strip())
+        arms[variant] = {'fmt': fmt[1:-1], 'name_arg': rest[0] if rest else '', 'bound_arg': bound_arg, 'bound_type': bound_type}
     return arms
+
+
+def self_typed(tokens: str):
+    """the expression has a type of its own wherever it is written: a suffixed literal, a path
+    (constant, `T::MAX`) or a call of a path; anything else (parenthesised / operator expressions,
+    bare literals) takes its type from the context it is printed in"""
+    t = re.sub(r'\s+', '', tokens)
+    if re.fullmatch(r'-?[0-9][0-9_]*(\.[0-9_]+)?(e-?[0-9]+)?[iuf](8|16|32|64|128|size)', t):
+        return True
+    return re.fullmatch(r'-?(::)?[A-Za-z_][A-Za-z0-9_]*(::[A-Za-z_][A-Za-z0-9_]*)*(\(\))?', t) is not None
 
 
 def stated_relation(fmt: str):
@@ -150,7 +170,11 @@ def analyse(d: Decl, dump_text: str):
         name_ok = (na in ('stringify!(%s)' % d.name, '"%s"' % d.name) and '{}' in arm['fmt']) or re.search(r'\b%s\b' % re.escape(d.name), arm['fmt']) is not None
         out.append({'variant': var, 'validator': v, 'missing': False, 'fmt': arm['fmt'], 'stated': stated_relation(arm['fmt']),
                     'names_ok': name_ok,
-                    'bound_ok': bound_matches(arm['bound_arg'], v.bound.src) or (v.bound.value is not None and norm_bound(v.bound.src) in arm['fmt']),
+                    # the bound argument is the declared expression AND it is evaluated as a value of
+                    # the type the validator compares in (otherwise: decided by running the real code)
+                    'bound_ok': (bound_matches(arm['bound_arg'], v.bound.src)
+                                 and (self_typed(arm['bound_arg']) or arm.get('bound_type') == ('usize' if d.family == 'string' else d.inner)))
+                                or (v.bound.value is not None and self_typed(v.bound.src + (d.inner if d.family != 'string' else 'usize')) and norm_bound(v.bound.src) in arm['fmt']),
                     'bound_arg': arm['bound_arg']})
     return out
 
